@@ -23,7 +23,7 @@ try:
             print(f'ERROR: {f}: old text occurs {s.count(old)} times'); sys.exit(1)
         open(p, 'w').write(s.replace(old, new))
     diff = subprocess.check_output(['git', '-C', wt, 'diff'], text=True)
-    d = '/verif/mutants/benign' if benign else '/verif/mutants'
+    d = os.path.join(os.path.dirname(os.path.dirname(os.path.abspath(__file__))), 'mutants', 'benign' if benign else '')
     os.makedirs(d, exist_ok=True)
     with open(f'{d}/{name}.patch', 'w') as fh:
         fh.write(f'# props: {props}\n# note: {note}\n' + diff)
